@@ -506,10 +506,19 @@ fn finish(
     let mut new_violations = 0;
     let mut known_matched: Vec<Json> = vec![];
     for (key, v) in &by_key {
-        let matched = known
-            .findings
-            .iter()
-            .find(|(p, k, _)| p == prop.id() && k == key);
+        // crash/hang verdicts are C03's subject: a crash already recorded as a C03 finding is
+        // reported as that finding by every other check that happens to run into it
+        let as_c03 = {
+            let rest = key.splitn(2, ':').nth(1).unwrap_or("");
+            if rest.starts_with("panic:") || rest.starts_with("hang:") || rest.starts_with("abort:") {
+                Some(format!("C03:{}", rest))
+            } else {
+                None
+            }
+        };
+        let matched = known.findings.iter().find(|(p, k, _)| {
+            (p == prop.id() && k == key) || (p == "C03" && Some(k) == as_c03.as_ref())
+        });
         let run = geti(v, "run");
         let fname = format!(
             "{}/replays/{}-{}-{}-{}.replay",
